@@ -5,6 +5,7 @@ pub mod c01;
 pub mod c02;
 pub mod c03;
 pub mod c04;
+pub mod c05;
 pub mod c06;
 pub mod c19;
 pub mod enc;
@@ -28,6 +29,7 @@ fn main() {
             "C02" => c02::replay(&ctx, &sub, &case),
             "C03" => c03::replay(&ctx, &sub, &case),
             "C04" => c04::replay(&ctx, &sub, &case),
+            "C05" => c05::replay(&ctx, &sub, &case),
             "C06" => c06::replay(&ctx, &sub, &case),
             "C19" => c19::replay(&ctx, &sub, &case),
             _ => {
@@ -59,6 +61,10 @@ fn main() {
         "C04" => {
             c04::run_all(&ctx);
             ctx.finish(c04::RULE, &["the clear secrets are read through hook H4", "FFT64 cases keep the gadget product inside the exactness domain of DESIGN C07 (CMux: one bit of extra head-room for the un-normalised difference)", "inputs are arbitrary normalised GLWE-shaped vectors; GGSW, switching, automorphism and tensor keys come from the library's encryption routines"], &[("a_size_not_multiple_of_dsize", 100), ("three_way_radix", 100), ("bound<2^-8", 1000), ("m2=ternary_dense", 100)])
+        }
+        "C05" => {
+            c05::run_all(&ctx);
+            ctx.finish(c05::RULE, &["the clear secret is read through hook H4", "FFT64 cases keep N * min(sa,sb) * 4 * 2^(2(b-1)) inside the exactness domain of DESIGN C07", "operands are arbitrary normalised GLWE-shaped vectors: the product identity is on unreduced limb values and needs no particular plaintext"], &[("masked_top_limb_path", 100), ("a_k!=b_k", 100), ("result_truncates_product", 100), ("offset_general", 100), ("bound<2^-8", 1000)])
         }
         "C06" => {
             c06::run_all(&ctx);
